@@ -10,7 +10,9 @@ from vf import sched as S, tzmodels as TM
 def codes(tz):
     from dateutil.tz import tz as tzmod
     c = tzmod._tzicalvtz
-    return [c._find_comp.__code__, c._find_compdt.__code__]
+    # whichever of the lookup helpers exist in this tree (a helper may be inlined or split by a refactoring)
+    out = [getattr(c, n).__code__ for n in ('_find_comp', '_find_compdt', 'fromutc') if n in c.__dict__]
+    return out
 
 
 def answers(z, walls):
